@@ -667,6 +667,13 @@ func (runInfo *runInfoStruct) invokeImportExpr(expr *ast.ImportExpr) {
 	var err error
 	pack := runInfo.env.NewEnv()
 	for methodName, methodValue := range methods {
+		if methodValue.CanAddr() {
+			// an addressable entry (env.NilValue is one) is a cell shared by every import of the package:
+			// the importing environment gets its own
+			own := reflect.New(methodValue.Type()).Elem()
+			own.Set(methodValue)
+			methodValue = own
+		}
 		err = pack.DefineValue(methodName, methodValue)
 		if err != nil {
 			runInfo.err = newStringError(expr, "import DefineValue error: "+err.Error())
